@@ -564,16 +564,27 @@ def case_json(res):
 NONE_FINDING = "none-valued-requested-output"   # open finding of C03
 
 
-def run_family(ctx, res, pid, n, modes=("fifo", "batchy", "shuffle", "newest"), max_tasks=10, coq_every=1, gen=gen_spec, extra=None, runner=None):
-    """generate n (spec, seed, mode) cases, run the real controller, apply the oracles of `pid`, replay in Coq"""
+def exhaustive_cases(rng, max_tasks=3):
+    """every job with <= max_tasks tasks x 4 cluster shapes x 3 requested-output choices (sched_exhaustive), each in
+    an in-order and in a reordering delivery mode"""
+    import sched_exhaustive
+    for spec in sched_exhaustive.specs(max_tasks):
+        yield spec, "fifo", rng.randrange(2**31)
+        yield spec, rng.choice(["shuffle", "newest", "batchy"]), rng.randrange(2**31)
+
+
+def run_family(ctx, res, pid, n, modes=("fifo", "batchy", "shuffle", "newest"), max_tasks=10, coq_every=1, gen=gen_spec, extra=None, runner=None, cases=None):
+    """generate n (spec, seed, mode) cases (or take them from `cases`), run the real controller, apply the oracles of
+    `pid`, replay in Coq"""
     from common import coq_results, coq_print
     rng = ctx.sub_rng("cases")
     sigs = SIGS.get(pid, set())
     terms, metas = [], []
-    for i in range(n):
-        spec = gen(rng, max_tasks=max_tasks)
-        mode = modes[i % len(modes)]
-        seed = rng.randrange(2**31)
+
+    def generated():
+        for i in range(n):
+            yield gen(rng, max_tasks=max_tasks), modes[i % len(modes)], rng.randrange(2**31)
+    for i, (spec, mode, seed) in enumerate(cases if cases is not None else generated()):
         r = (runner or run_case)(spec, seed, mode)
         res.evaluations += 1
         res.count(f"mode:{mode}")
